@@ -2,7 +2,7 @@
 From Coq Require Import String Ascii.
 From Coq Require Import ZArith NArith Bool List Lia.
 Import ListNotations.
-Require Import FV.Base.Util FV.Base.F64 FV.Base.PyVal FV.C01.Model FV.C01.Lemmas FV.Gen.C03 FV.C03.Model FV.C03.Lemmas.
+Require Import FV.Base.Util FV.Base.F64 FV.Base.PyVal FV.C01.Model FV.C01.Lemmas FV.Gen.C03 FV.C03.Model FV.C03.Lemmas FV.C03.LemmasScaled.
 
 Lemma map_fst_norm p (ms : list (str * xt)) : map fst (map (fun q => (fst q, norm p (snd q))) ms) = map fst ms.
 Proof. rewrite map_map. reflexivity. Qed.
@@ -20,35 +20,35 @@ Proof. destruct l; [contradiction|discriminate]. Qed.
 
 Theorem rebuild_ok p : forall x, rebuilds p x.
 Proof.
-  induction x using xt_ind2; unfold rebuilds; intros HW HS j E fuel HD;
+  induction x using xt_ind2; unfold rebuilds; intros HW j E fuel HD;
     (destruct fuel as [|fl]; [cbn in HD; lia|]).
   - apply rebuild_float; assumption.
   - cbn in E. injection E as <-. apply rebuild_int; assumption.
-  - contradiction.
+  - apply rebuild_scaled; assumption.
   - cbn in E. injection E as <-. apply rebuild_bool.
   - apply (rebuild_enum fl p n ms j HW E).
   - apply (rebuild_string fl p a b u t j HW E).
   - apply (rebuild_blob fl p a b j HW E).
   - (* array *)
-    destruct HW as (HWe & Ha & Hb & Hle). cbn in HS, HD.
+    destruct HW as (HWe & Ha & Hb & Hle). cbn in HD.
     cbn [xt_export] in E. apply bind_ok in E as (je & Eje & E). injection E as <-.
-    start_get2 leaf_array. rewrite (IHx HWe HS je Eje fl ltac:(lia)). cbn [bind norm].
+    start_get2 leaf_array. rewrite (IHx HWe je Eje fl ltac:(lia)). cbn [bind norm].
     unfold mk_array, none_or. cbv beta iota. rewrite Ha, Hb. cbn [as_z bind]. rewrite Hle. reflexivity.
   - (* tuple *)
-    destruct HW as (Hne & HWs). cbn in HS, HD.
-    apply all_Forall in HWs, HS.
+    destruct HW as (Hne & HWs). cbn in HD.
+    apply all_Forall in HWs.
     cbn [xt_export] in E. fold export_list in E. apply bind_ok in E as (js & Ejs & E). injection E as <-.
     assert (HDs : Forall (fun e => depth e <= fl) es) by (apply depth_list_le; lia).
-    pose proof (get_list_ok p fl es js H HWs HS HDs Ejs) as G.
+    pose proof (get_list_ok p fl es js H HWs HDs Ejs) as G.
     destruct es as [|e0 es]; [contradiction|].
     destruct js as [|j0 js]; [cbn in Ejs; apply bind_ok in Ejs as (? & _ & Ejs); apply bind_ok in Ejs as (? & _ & Ejs); discriminate|].
     start_get2 leaf_tuple. cbn [negb]. unfold get_list in G. cbn beta iota in G. rewrite G. reflexivity.
   - (* struct *)
-    destruct HW as (Hne & Hopt & Hform & HWs). cbn in HS, HD.
-    apply all_Forall in HWs, HS.
+    destruct HW as (Hne & Hopt & Hform & HWs). cbn in HD.
+    apply all_Forall in HWs.
     cbn [xt_export] in E. fold export_members in E. apply bind_ok in E as (js & Ejs & E). injection E as <-.
     assert (HDs : Forall (fun q => depth (snd q) <= fl) ms) by (apply depth_members_le; lia).
-    pose proof (get_members_ok p fl ms js H HWs HS HDs Ejs) as G.
+    pose proof (get_members_ok p fl ms js H HWs HDs Ejs) as G.
     remember (map PStr opt) as popt eqn:Epopt.
     destruct Hform as [Hneq| ->].
     + rewrite Hneq. cbn [ent app].
@@ -68,46 +68,56 @@ Fixpoint unclient (x : xt) : xt :=
   | _ => x
   end.
 
-Ltac copy_leaf HW HS :=
+Ltac copy_leaf HW :=
   match goal with |- xt_copy ?X = _ =>
     let j := fresh "j" in let E := fresh "E" in
     assert (exists j, xt_export X = Ok j) as [j E] by (eexists; reflexivity);
     change (xt_copy X) with (rebuild 2 X); unfold rebuild; rewrite E; cbn [bind];
-    rewrite (rebuild_ok [] X HW HS j E 2 ltac:(cbn; lia)); reflexivity
+    rewrite (rebuild_ok [] X HW j E 2 ltac:(cbn; lia)); reflexivity
   end.
 
-Theorem copy_ok : forall x, wfx x -> scaled_free x -> xt_copy x = Ok (unclient x).
+Ltac copy_scaled HW :=
+  match goal with |- xt_copy ?X = _ =>
+    let j := fresh "j" in let E := fresh "E" in
+    assert (exists j, xt_export X = Ok j) as [j E]
+      by (destruct HW as (_ & _ & (k1 & kf1 & Ek1 & _) & (k2 & kf2 & Ek2 & _) & _); cbn [xt_export]; rewrite Ek1, Ek2;
+          eexists; reflexivity);
+    change (xt_copy X) with (rebuild 2 X); unfold rebuild; rewrite E; cbn [bind];
+    rewrite (rebuild_ok [] X HW j E 2 ltac:(cbn; lia)); reflexivity
+  end.
+
+Theorem copy_ok : forall x, wfx x -> xt_copy x = Ok (unclient x).
 Proof.
-  induction x using xt_ind2; intros HW HS.
-  - copy_leaf HW HS.
-  - copy_leaf HW HS.
-  - contradiction.
-  - copy_leaf HW HS.
+  induction x using xt_ind2; intros HW.
+  - copy_leaf HW.
+  - copy_leaf HW.
+  - copy_scaled HW.
+  - copy_leaf HW.
   - reflexivity.
   - destruct t.
     + destruct HW as (_ & _ & _ & Ht). destruct (Ht eq_refl) as [-> ->]. reflexivity.
-    + copy_leaf HW HS.
-  - copy_leaf HW HS.
-  - destruct HW as (HWe & _). cbn in HS. cbn [xt_copy unclient]. rewrite (IHx HWe HS). reflexivity.
-  - destruct HW as (_ & HWs). cbn in HS. apply all_Forall in HWs, HS. cbn [xt_copy unclient].
+    + copy_leaf HW.
+  - copy_leaf HW.
+  - destruct HW as (HWe & _). cbn [xt_copy unclient]. rewrite (IHx HWe). reflexivity.
+  - destruct HW as (_ & HWs). apply all_Forall in HWs. cbn [xt_copy unclient].
     assert (G : (fix go (l : list xt) : res (list xt) :=
                    match l with
                    | [] => Ok []
                    | e :: r => xt_copy e >>= fun e' => go r >>= fun es' => Ok (e' :: es')
                    end) es = Ok (map unclient es)).
     { induction es as [|e es IH]; [reflexivity|].
-      inversion H; inversion HWs; inversion HS; subst.
-      rewrite (H2 H6 H10). cbn [bind]. rewrite (IH H3 H7 H11). reflexivity. }
+      inversion H; inversion HWs; subst.
+      rewrite (H2 H6). cbn [bind]. rewrite (IH H3 H7). reflexivity. }
     rewrite G. reflexivity.
-  - destruct HW as (_ & _ & _ & HWs). cbn in HS. apply all_Forall in HWs, HS. cbn [xt_copy unclient].
+  - destruct HW as (_ & _ & _ & HWs). apply all_Forall in HWs. cbn [xt_copy unclient].
     assert (G : (fix go (l : list (str * xt)) : res (list (str * xt)) :=
                    match l with
                    | [] => Ok []
                    | (n, e) :: r => xt_copy e >>= fun e' => go r >>= fun es' => Ok ((n, e') :: es')
                    end) ms = Ok (map (fun q => (fst q, unclient (snd q))) ms)).
     { induction ms as [|[n e] ms IH]; [reflexivity|].
-      inversion H; inversion HWs; inversion HS; subst. cbn [fst snd] in *.
-      rewrite (H2 H6 H10). cbn [bind]. rewrite (IH H3 H7 H11). reflexivity. }
+      inversion H; inversion HWs; subst. cbn [fst snd] in *.
+      rewrite (H2 H6). cbn [bind]. rewrite (IH H3 H7). reflexivity. }
     rewrite G. reflexivity.
 Qed.
 
@@ -269,3 +279,7 @@ Lemma fix_by_bool (pv : pyval -> res pyval) (f : f64) :
 Proof.
   unfold fixf, res_float_is. destruct (pv (PFloat f)) as [[]|]; try discriminate. intros H. apply fsame_eq in H. subst. reflexivity.
 Qed.
+Lemma res_by_bool (r : res pyval) (f : f64) : res_float_is (fun g => fsame g f) r = true -> r = Ok (PFloat f).
+Proof. unfold res_float_is. destruct r as [[]|]; try discriminate. intros H. apply fsame_eq in H. subst. reflexivity. Qed.
+Lemma float_of_Z_by_bool z : fis_finite (fmk z 0) = true -> float_of_Z z = Some (fmk z 0).
+Proof. intros H. unfold float_of_Z, of_Z. cbv zeta. rewrite H. reflexivity. Qed.
